@@ -144,3 +144,21 @@ package mvs
 //@                   (=> (and (<= (cmpv a b) 0) (<= (cmpv b c) 0)) (<= (cmpv a c) 0))
 //@                   (>= (cmpv gs.empty a) 0))))
 //@ >>>
+
+// ---------------------------------------------------------------- C11: queries never select an older version
+// `@patch`: the loop body (a range-over-func yield function) stops the walk over the tags only at a
+// tag of the same project and minor series that is strictly newer than the selected version;
+// otherwise the selected version itself is the answer. So a patch query never lowers the project.
+//@ func (*mvs.querier).resolvePatchQuery$2
+//@   ensures stops-only-at-a-newer-patch: !result ==> (old(v.Version.Path) == old(currentVersion.Path) && semcmp(old(v.Version.Version), old(currentVersion.Version)) > 0)
+//@   modifies heap
+
+// `@upgrade`: the latest version or the selected one, whichever is greater.
+//@ func (*mvs.querier).resolveLatestQuery
+//@   trusted
+//@   modifies heap
+//@ func (*mvs.querier).resolveUpgradeQuery
+//@   ensures not-below-selected: result.1 == nil ==> (forall j: int :: (0 <= j && j < len(buildList) && buildList[j].Path == result.0.Path && (forall k: int :: 0 <= k && k < j ==> buildList[k].Path != result.0.Path)) ==> semcmp(result.0.Version, buildList[j].Version) >= 0)
+//@   modifies heap
+//@   loop 0: invariant not-seen-yet: forall k: int :: 0 <= k && k <= rangeindex ==> buildList[k].Path != newVersion.Path
+
